@@ -333,6 +333,23 @@ def addRelevantUnmined (s : Store) (tr : TxRec) : M Store :=
 
 -- ------------------------------------------------------------------ mined side
 
+/-- updateMinedBalance, loop body once every lookup has succeeded: mark the credit spent (spendCredit),
+    move the deposit record (withdrawGame), write the debit (putDebit), drop the unspent entry
+    (deleteRawUnspent), subtract the amount -/
+def spendApply (tr : TxRec) (blk : BlockMeta) (sb : Store × Bals) (rel : Rel) (i : Inp) (cblk : BlockMeta)
+    (c : Credit) : Store × Bals :=
+  let ck : CredKey := ⟨i.tx, cblk, i.idx⟩
+  let dk : CredKey := ⟨tr.tx.id, blk, rel.index⟩
+  let gk : GameKey := ⟨rel.wallet, rel.out.cls.isBinding, false, i.tx, cblk.height, i.idx⟩
+  ({ sb.1 with
+      credits := AMap.put sb.1.credits ck { c with spent := true, spentBy := some dk },
+      game := if rel.out.cls.isBinding || rel.out.cls.isStaking then
+                AMap.put (AMap.erase sb.1.game gk) { gk with withdrawn := true } ()
+              else sb.1.game,
+      debits := AMap.put sb.1.debits dk (c.amt, ck),
+      unspent := AMap.erase sb.1.unspent (rel.wallet, i.tx, i.idx) },
+   AMap.put sb.2 rel.wallet (getBal sb.2 rel.wallet - c.amt))
+
 /-- updateMinedBalance (txstore.go), body of the loop: spend the credit consumed by one relevant input -/
 def spendOne (tr : TxRec) (blk : BlockMeta) (sb : Store × Bals) (rel : Rel) : M (Store × Bals) :=
   match tr.tx.ins[rel.index]? with
@@ -341,25 +358,15 @@ def spendOne (tr : TxRec) (blk : BlockMeta) (sb : Store × Bals) (rel : Rel) : M
     match AMap.get sb.1.unspent (rel.wallet, i.tx, i.idx) with      -- existsUnspent
     | none => throw .creditNotFound
     | some cblk =>
-      let ck : CredKey := ⟨i.tx, cblk, i.idx⟩
-      match AMap.get sb.1.credits ck with                           -- spendCredit
+      match AMap.get sb.1.credits ⟨i.tx, cblk, i.idx⟩ with          -- spendCredit
       | none => throw (.other "short credit value")
       | some c =>
         if c.spent then throw (.other "short v read")               -- requires the 45-byte (unspent) value
-        else
-          let dk : CredKey := ⟨tr.tx.id, blk, rel.index⟩
-          let isGame := rel.out.cls.isBinding || rel.out.cls.isStaking
-          let gk : GameKey := ⟨rel.wallet, rel.out.cls.isBinding, false, i.tx, cblk.height, i.idx⟩
-          if isGame && (AMap.get sb.1.game gk).isNone then throw (.other "withdraw game not found")   -- withdrawGame
-          else if getBal sb.2 rel.wallet < c.amt then throw (.other "balance underflow")
-          else
-            pure ({ sb.1 with
-                      credits := AMap.put sb.1.credits ck { c with spent := true, spentBy := some dk },
-                      game := if isGame then AMap.put (AMap.erase sb.1.game gk) { gk with withdrawn := true } ()
-                              else sb.1.game,
-                      debits := AMap.put sb.1.debits dk (c.amt, ck),                    -- putDebit
-                      unspent := AMap.erase sb.1.unspent (rel.wallet, i.tx, i.idx) },   -- deleteRawUnspent
-                  AMap.put sb.2 rel.wallet (getBal sb.2 rel.wallet - c.amt))
+        else if (rel.out.cls.isBinding || rel.out.cls.isStaking) &&
+            (AMap.get sb.1.game ⟨rel.wallet, rel.out.cls.isBinding, false, i.tx, cblk.height, i.idx⟩).isNone then
+          throw (.other "withdraw game not found")                  -- withdrawGame
+        else if getBal sb.2 rel.wallet < c.amt then throw (.other "balance underflow")
+        else pure (spendApply tr blk sb rel i cblk c)
 
 /-- updateMinedBalance (txstore.go): spend the credits consumed by the relevant inputs -/
 def updateMinedBalance (s : Store) (bals : Bals) (tr : TxRec) (blk : BlockMeta) : M (Store × Bals) :=
@@ -393,20 +400,22 @@ def minedCreditOf (p : Params) (cb : Bool) (rel : Rel) : Credit :=
   { amt := rel.out.amt, spent := false, change := rel.change, cls := uclassOf rel.out.cls,
     maturity := (if cb then p.cbMaturity else rel.out.cls.maturity) % 2^32, sh := rel.out.addr, spentBy := none }
 
+/-- AddCredits (mined), body of the first loop after the duplicate check: address record, credit,
+    unspent entry, amount -/
+def creditApply (p : Params) (tr : TxRec) (blk : BlockMeta) (sb : Store × Bals) (rel : Rel) : Store × Bals :=
+  let ak := (rel.wallet, rel.out.cls.isStaking, rel.out.addr)
+  ({ sb.1 with
+      addrs := match AMap.get sb.1.addrs ak with
+        | some h => if h = 0 then AMap.put sb.1.addrs ak blk.height else sb.1.addrs
+        | none => AMap.put sb.1.addrs ak blk.height,
+      credits := AMap.put sb.1.credits ⟨tr.tx.id, blk, rel.index⟩ (minedCreditOf p tr.tx.cb rel),
+      unspent := AMap.put sb.1.unspent (rel.wallet, tr.tx.id, rel.index) blk },
+   AMap.put sb.2 rel.wallet (getBal sb.2 rel.wallet + rel.out.amt))
+
 /-- AddCredits (mined), body of the first loop -/
 def creditOne (p : Params) (tr : TxRec) (blk : BlockMeta) (sb : Store × Bals) (rel : Rel) : M (Store × Bals) :=
-  let ck : CredKey := ⟨tr.tx.id, blk, rel.index⟩
-  if (AMap.get sb.1.credits ck).isSome then throw .duplicate
-  else
-    let ak := (rel.wallet, rel.out.cls.isStaking, rel.out.addr)
-    let addrs := match AMap.get sb.1.addrs ak with
-      | some h => if h = 0 then AMap.put sb.1.addrs ak blk.height else sb.1.addrs
-      | none => AMap.put sb.1.addrs ak blk.height
-    pure ({ sb.1 with
-              addrs := addrs,
-              credits := AMap.put sb.1.credits ck (minedCreditOf p tr.tx.cb rel),
-              unspent := AMap.put sb.1.unspent (rel.wallet, tr.tx.id, rel.index) blk },
-          AMap.put sb.2 rel.wallet (getBal sb.2 rel.wallet + rel.out.amt))
+  if (AMap.get sb.1.credits ⟨tr.tx.id, blk, rel.index⟩).isSome then throw .duplicate
+  else pure (creditApply p tr blk sb rel)
 
 /-- AddCredits (mined), second loop: the deposit history records -/
 def gameOne (tr : TxRec) (blk : BlockMeta) (s : Store) (rel : Rel) : Store :=
